@@ -392,3 +392,22 @@ def trace_validate(rep, kind, scs, tag, seed, runs, invariants, key=None, varian
     rep.cov.setdefault("m2", []).append(dict(spec=module, tag=tag, traces=len(traces), accepted=ok, accepted_weakly=weak_ok))
     if traces:
         rep.cov["samples"].append(dict(kind="M2 trace line", line=json.loads(traces[0][1][min(5, len(traces[0][1]) - 1)])))
+
+
+def pair_sessions(rep, seed, rounds):
+    """Other activity in the process: three write/read sessions at the same time (one application thread each, native
+    threads) must write byte for byte what each of them writes when it runs alone, and read back their own objects."""
+    exes = vlib.build("plain", ["drv_native"])
+    nd = os.path.join(vlib.WORK, "native")
+    os.makedirs(nd, exist_ok=True)
+    results, other, rc, err = vlib.run_driver(exes["drv_native"], ["pair", nd, seed, rounds], timeout=1500)
+    if rc != 0 or not results:
+        rep.violation("pair:crash", "three write/read sessions at the same time: driver failed rc=%s %s"
+                      % (rc, err[-400:].replace("\n", " | ")), dict(rc=rc))
+        return
+    r = results[0]
+    rep.cov["evaluations"] += r["objects"]
+    rep.cov["concurrent_sessions"] = r["sessions"]
+    if r["differ"] or r["bad"]:
+        rep.violation("pair:differ", "a session writes different bytes (or reads wrong objects) when other sessions run in "
+                      "the same process at the same time: %s" % r.get("first", r), r)
